@@ -38,6 +38,55 @@ _classes = []
 
 
 BMODE = {"mode": None}
+TLOG = {}                  # thread ident -> call log of that thread (calls of other threads go to LOG)
+GATE = {"thread": None}    # the thread that is held inside its first update_object() until the gate opens
+REFRESH = {"target": None}  # the object for which the data source delivers a renamed state on the next update
+
+
+class Call(tuple):
+    """a log entry (method, class, store object, object, copy of relative_path) + whether the path led from the store
+    object to the object when the backend was called (ok) / did so without its first segment (ok_tail)"""
+
+
+def walks(so, rel, o):
+    try:
+        cur = so
+        for i in rel:
+            cur = cur.get_referable(i)
+        return cur is o
+    except Exception:
+        return False
+
+
+def note(entry):
+    import threading
+    entry = Call(entry)
+    _, _, so, o, rel = entry
+    entry.ok = walks(so, rel, o)
+    entry.ok_tail = bool(rel) and walks(so, rel[1:], o)
+    TLOG.get(threading.get_ident(), LOG).append(entry)
+
+
+def hold():
+    """A slow data source: the gated thread stays inside its first backend call until the other caller is through."""
+    import threading
+    if GATE["thread"] == threading.get_ident() and not GATE["held"]:
+        GATE["held"] = True
+        GATE["inside"].set()
+        GATE["go"].wait(5.0)
+
+
+def refresh(updated_object):
+    """What every backend does inside update_object(): write the state found in the data source into the object with
+    update_from().  The state delivered here is the object's own subtree (rebuilt through the constructors) under a
+    new id_short: the object was renamed in the data source."""
+    if REFRESH["target"] is not updated_object:
+        return
+    REFRESH["target"] = None
+    sub = copy_tree(rt.clean(REFRESH["node"]))
+    sub["k"] = REFRESH["name"]
+    updated_object.update_from(rt.build(sub))
+    REFRESH["done"] = True
 
 
 def consume(relative_path):
@@ -67,13 +116,15 @@ def backends_ready():
                 class Rec(backends.Backend):
                     @classmethod
                     def commit_object(cls, committed_object, store_object, relative_path):
-                        LOG.append((1, i, store_object, committed_object, list(relative_path)))   # as it is AT CALL TIME
+                        note((1, i, store_object, committed_object, list(relative_path)))   # as it is AT CALL TIME
                         consume(relative_path)
 
                     @classmethod
                     def update_object(cls, updated_object, store_object, relative_path):
-                        LOG.append((2, i, store_object, updated_object, list(relative_path)))
+                        note((2, i, store_object, updated_object, list(relative_path)))
                         consume(relative_path)
+                        hold()
+                        refresh(updated_object)
                 return Rec
             _classes.append(mk(i))
     for i, s in enumerate(SCHEMES):
@@ -140,42 +191,10 @@ def run_ops(tree, ops):
                 backends.get_backend(n["_o"].source)
             except Exception:
                 pass
-    BMODE["mode"] = None
-    for op in ops:
-        if op[0] == "bmode":
-            BMODE["mode"] = op[1]          # not an operation of the SDK: how the recording backends treat their argument
-            continue
-        if op[0] == "register":
-            backends.register_backend(op[1], _classes[op[2]])
-            current[op[1]] = op[2]
-            regs_so_far.append(op)
-            seg["ops"].append(op)
-            continue
-        if op[0] == "clock":
-            clock.t += op[1]
-            seg["ops"].append(op)
-            continue
-        if op[0] == "edit":
-            c07.apply_mutation([[tree]], op[1], True)
-            reindex()
-            segments.append(seg)
-            seg = {"tree": rt.clean(tree), "regs": list(regs_so_far), "ops": [], "obs": []}
-            continue
+    def judge(op, calls, err):
         pos_of, by_pos = state["pos_of"], state["by_pos"]
         kind, p = op[0], tuple(op[1])
-        x = by_pos[p]["_o"]
         seg["ops"].append(op)
-        del LOG[:]
-        err = None
-        try:
-            with clock:
-                if kind == "commit":
-                    x.commit()
-                else:
-                    x.update(recursive=op[2])
-        except Exception as e:
-            err = e
-        calls = list(LOG)
         rows = []
         for (k, b, so, o, rel) in calls:
             sp, ob = pos_of.get(id(so)), pos_of.get(id(o))
@@ -203,7 +222,7 @@ def run_ops(tree, ops):
             if op[2]:
                 want += [(d, d) for d in desc if src(d)]
             k_want = 2
-        got = [(pos_of.get(id(so)), pos_of.get(id(o))) for (_, _, so, o, _) in calls]
+        got = [(pos_of.get(id(so), (-99,)), pos_of.get(id(o), (-99,))) for (_, _, so, o, _) in calls]   # -99: not a node
         bad_srcs = [src(s) for s, _ in want if scheme_py(src(s)) not in current]
         tag = kind if kind == "commit" else f"update-{'recursive' if op[2] else 'single'}"
         if not bad_srcs:
@@ -224,7 +243,8 @@ def run_ops(tree, ops):
                     fails.append((f"C17:{tag}:undocumented-error", f"{type(err).__name__} raised; sources {bad_srcs} call for {sorted(docs)}"))
             if not set(got) <= set(want) or len(set(got)) != len(got):
                 fails.append((f"C17:{tag}:extra-call-before-error", f"calls {sorted(got)} not within {sorted(want)}"))
-        for (k, b, so, o, rel) in calls:
+        for call in calls:
+            (k, b, so, o, rel) = call
             if k != k_want:
                 fails.append((f"C17:{tag}:wrong-backend-method", "commit_object/update_object mixed up"))
             s_src = so.source
@@ -234,29 +254,101 @@ def run_ops(tree, ops):
                 fails.append((f"C17:{tag}:wrong-backend" + ("-after-re-registration" if stale else ""),
                               f"source {s_src!r} handled by backend class {b}, but class {current.get(scheme_py(s_src))} "
                               f"is the one registered last for its scheme"))
-            # the documented contract of relative_path
-            try:
-                cur = so
-                for i in rel:
-                    cur = cur.get_referable(i)
-                ok = cur is o
-            except Exception:
-                ok = False
+            # the documented contract of relative_path, as it held when the backend was called
+            ok, ok_tail = call.ok, call.ok_tail
             if not ok:
-                ok_tail = False
-                if rel:
-                    try:
-                        cur = so
-                        for i in rel[1:]:
-                            cur = cur.get_referable(i)
-                        ok_tail = cur is o
-                    except Exception:
-                        ok_tail = False
                 if kind == "update" and ok_tail:
                     sig = "C17:update:relative_path-starts-with-store-object"
                 else:
                     sig = f"C17:{tag}:relative_path-does-not-lead-to-object"
                 fails.append((sig, f"relative_path {rel} from store {so!r} does not lead to {o!r}"))
+    BMODE["mode"] = None
+    for op in ops:
+        if op[0] == "bmode":
+            BMODE["mode"] = op[1]          # not an operation of the SDK: how the recording backends treat their argument
+            continue
+        if op[0] == "register":
+            backends.register_backend(op[1], _classes[op[2]])
+            current[op[1]] = op[2]
+            regs_so_far.append(op)
+            seg["ops"].append(op)
+            continue
+        if op[0] == "clock":
+            clock.t += op[1]
+            seg["ops"].append(op)
+            continue
+        if op[0] == "edit":
+            try:
+                c07.apply_mutation([[tree]], op[1], True)
+            except Exception as e:
+                # the public API refuses an edit that is valid for the tree as built and renamed so far (e.g. a child
+                # not found under its id_short): the rest of the history cannot be carried out
+                fails.append(("C17:history:edit-refused", f"{op[1][0]} at {op[1][3]}: {type(e).__name__}: {e}"))
+                break
+            reindex()
+            segments.append(seg)
+            seg = {"tree": rt.clean(tree), "regs": list(regs_so_far), "ops": [], "obs": []}
+            continue
+        pos_of, by_pos = state["pos_of"], state["by_pos"]
+        if op[0] == "pupdate":
+            # two callers at once: thread A is inside update() of node p (held in its first backend call, a slow data
+            # source) while this thread calls update() of node q; each caller is judged like a call of its own
+            import threading
+            (p, ra, q, rb) = (tuple(op[1]), op[2], tuple(op[3]), op[4])
+            xa, xb = by_pos[p]["_o"], by_pos[q]["_o"]
+            del LOG[:]
+            res = {"a": None, "b": None}
+            log_a = []
+            GATE.update(inside=threading.Event(), go=threading.Event(), held=False)
+
+            def worker():
+                TLOG[threading.get_ident()] = log_a
+                GATE["thread"] = threading.get_ident()
+                try:
+                    xa.update(recursive=ra)
+                except Exception as e:
+                    res["a"] = e
+                finally:
+                    GATE["inside"].set()
+                    TLOG.pop(threading.get_ident(), None)
+            with clock:
+                th = threading.Thread(target=worker, name="c17-worker")
+                th.start()
+                GATE["inside"].wait(5.0)
+                try:
+                    xb.update(recursive=rb)
+                except Exception as e:
+                    res["b"] = e
+                GATE["go"].set()
+                th.join(10.0)
+            GATE["thread"] = None
+            todo = [(("update", p, ra), list(log_a), res["a"]), (("update", q, rb), list(LOG), res["b"])]
+        else:
+            x = by_pos[tuple(op[1])]["_o"]
+            sop = ("update", tuple(op[1]), False) if op[0] == "refresh" else op
+            if op[0] == "refresh":
+                REFRESH.update(target=x, node=by_pos[tuple(op[1])], name=op[2], done=False)
+            del LOG[:]
+            err = None
+            try:
+                with clock:
+                    if sop[0] == "commit":
+                        x.commit()
+                    else:
+                        x.update(recursive=sop[2])
+            except Exception as e:
+                err = e
+            REFRESH["target"] = None
+            todo = [(sop, list(LOG), err)]
+        for sop, calls, err in todo:
+            judge(sop, calls, err)
+        if op[0] == "refresh" and REFRESH["done"]:
+            # the tree is the renamed one from here on (a new segment, as after an edit)
+            p = tuple(op[1])
+            renamed(by_pos[p[:-1]], p[-1], op[2])
+            reindex()
+            segments.append(seg)
+            seg = {"tree": rt.clean(tree), "regs": list(regs_so_far), "ops": [], "obs": []}
     segments.append(seg)
     return obs, fails, segments
 
@@ -364,6 +456,46 @@ def gen_history(rng, tree, count, late):
                 count(f"clock-step={'0' if step == 0 else 'forward' if step > 0 else 'backward'}")
                 if rng.random() < .4:
                     ops.append(("commit", p))
+    if rng.random() < 0.35:
+        # two callers at once: update() of a node while another thread is inside update() of the same node (or of a
+        # node above / below it), held in its backend call
+        walked = [p for p, _, _ in rt.walk(cur)]
+        for _ in range(rng.randint(1, 2)):
+            p = rng.choice(walked)
+            rel = [q for q in walked if q[:len(p)] == p or p[:len(q)] == q]
+            q = p if rng.random() < .6 else rng.choice(rel)
+            ops.append(("pupdate", p, rng.random() < .5, q, rng.random() < .5))
+            count("concurrent-update=" + ("same-node" if q == p else "ancestor" if len(q) < len(p) else "descendant"))
+    if rng.random() < 0.35:
+        # the data source delivers a renamed state of a node: the backend writes it with update_from(); afterwards
+        # calls on the node and on the nodes below it
+        k = 0
+        for _ in range(rng.randint(1, 2)):
+            cand = []
+            for p, n, par in rt.walk(cur):
+                if par is None or par["c"] == "SubmodelElementList":
+                    continue
+                if any(x["c"] in ("SubmodelElementList", "Operation") for _, x, _ in rt.walk(n)):
+                    continue
+                if par["c"] == "Operation":
+                    continue
+                serving = [by["src"] for by in chain_of(cur, p) if by["src"]]
+                if serving and scheme_py(serving[-1]) in SCHEMES:
+                    cand.append((p, n, par))       # update() of this node reaches a backend, whatever is registered
+            if not cand:
+                break
+            with_desc = [c for c in cand if c[1]["ch"]]
+            p, n, par = rng.choice(with_desc if with_desc and rng.random() < .7 else cand)
+            k += 1
+            name = rng.choice(["renamed", "Rn_", "n"]) + str(k)
+            ops.append(("refresh", p, name))
+            renamed(par, p[-1], name)
+            p = p[:-1] + [len(par["ch"]) - 1]
+            count("refresh-renames=" + ("container" if n["ch"] else "leaf"))
+            below = [q for q, _, _ in rt.walk(cur) if q[:len(p)] == p]
+            rng.shuffle(below)
+            for q in below[:3]:
+                ops += rng.sample([("commit", q), ("update", q, False), ("update", q, True)], rng.randint(1, 2))
     if rng.random() < 0.6:
         for _ in range(rng.randint(1, 3)):
             m = gen_edit(rng, cur)
@@ -380,6 +512,36 @@ def gen_history(rng, tree, count, late):
                 ops.append(("clock", rng.choice(CLOCK_STEPS)))
                 ops += [("update", p, False) for p in near[:2]]
     return ops
+
+
+def renamed(parent, i, name):
+    """the abstract tree after child i of `parent` was re-keyed in its NamespaceSet: taken out and added again under
+    the new name, which puts it behind its siblings in the iteration order of the set"""
+    n = parent["ch"].pop(i)
+    n["k"] = name
+    parent["ch"].append(n)
+
+
+def chain_of(tree, p):
+    """the nodes from the root down to position p"""
+    res, n = [tree], tree
+    for i in p:
+        n = n["ch"][i]
+        res.append(n)
+    return res
+
+
+def flat_ops(ops):
+    """the commit/update calls an operation list amounts to, in the order of their observations"""
+    res = []
+    for o in ops:
+        if o[0] in ("commit", "update"):
+            res.append(o)
+        elif o[0] == "refresh":
+            res.append(("update", o[1], False))
+        elif o[0] == "pupdate":
+            res += [("update", o[1], o[2]), ("update", o[3], o[4])]
+    return res
 
 
 def all_ops(tree):
@@ -515,7 +677,7 @@ def run(chk):
         chk.count(f"nodes={'1-5' if nn <= 5 else '6-15' if nn <= 15 else '>15'}")
         chk.count(f"sourced_nodes={'0' if nsrc == 0 else '1-2' if nsrc <= 2 else '3-6' if nsrc <= 6 else '>6'}")
         chk.count(f"height={rt.height(tree)}")
-        for o, ob in zip([o for o in ops if o[0] in ("commit", "update")], obs):
+        for o, ob in zip(flat_ops(ops), obs):
             chk.count(f"op={o[0]}" + ("" if o[0] == "commit" else f"(recursive={o[2]})"))
             chk.count(f"calls={'0' if len(ob) == 1 else '1' if len(ob) == 2 else '2-3' if len(ob) <= 4 else '>3'}")
             chk.count("result=" + {0: "ok", 3: "ValueError", 7: "UnknownBackendException"}.get(ob[-1][0], "other"))
@@ -601,7 +763,13 @@ def finish(chk):
                            "of a SubmodelElementList: insert(0), del [0], pop(0), setitem, reverse; add/remove_referable) "
                            "followed by calls on the nodes around the edit, the model evaluated on the tree as it is then; "
                            "in ~50% of the random cases the recording backends mutate the relative_path list they are handed "
-                           "(append/clear/reverse/use up), the log keeps a copy taken on entry; schemes: one letter, letter+digits/+/-/., upper case, 127 characters; non-trivial = >= 3 nodes and >= 1 source")
+                           "(append/clear/reverse/use up), the log keeps a copy taken on entry and the path is walked from the "
+                           "store object at call time; in ~35% 1-2 concurrent pairs of update() calls (a worker thread is held "
+                           "inside its first backend call on node p while the main thread updates p or a node above/below it; "
+                           "each caller judged and compared with the model as a call of its own); in ~35% 1-2 refreshes: the "
+                           "recording backend writes a renamed state of the updated node (its subtree rebuilt through the "
+                           "constructors under a new id_short) with update_from(), then calls on the node and below it, the "
+                           "model evaluated on the renamed tree (re-keyed child = last of its NamespaceSet); schemes: one letter, letter+digits/+/-/., upper case, 127 characters; non-trivial = >= 3 nodes and >= 1 source")
 
 
 def replay(path):
